@@ -385,8 +385,18 @@ func (e *Engine) trustedBase() []string {
 			out = append(out, "axiom "+f.Name+": "+f.Text)
 		}
 	}
+	var synth []string
+	for k, c := range e.spec.Contracts {
+		if c.Synth {
+			synth = append(synth, k)
+		}
+	}
+	sort.Strings(synth)
+	for _, k := range synth {
+		out = append(out, "uninterpreted pure library function (no contract in the contract file): "+k)
+	}
 	if e.spec.WfNonNil {
-		out = append(out, "wf nonnil-elements: the pointer slices held in the parser's structures ([]*Option, []*Group, []*Command, []*Arg) contain no nil element, and the embedded *Group of a Command / *Command of a Parser is never nil (assumed at reads)")
+		out = append(out, "wf nonnil-elements: the pointer slices held in the parser's structures ([]*Option, []*Group, []*Command, []*Arg) contain no nil element, map entries of the lookup tables under a present key are non-nil, and the embedded *Group of a Command / *Command of a Parser is never nil (assumed at reads, in code and in specifications)")
 	}
 	out = append(out,
 		"govc itself: Go-subset semantics, VC generation, cone-of-influence filter (drops hypotheses only)",
@@ -403,6 +413,13 @@ func (e *Engine) assumptions() []string {
 		"pointers to non-package types (*string, ...) have immutable pointees",
 		"user callbacks and interface methods (Execute, handlers, Unmarshaler, ...) do not modify the parser's own data structures; their results are unconstrained",
 		"build configuration GOOS=linux, tags verif: optstyle_windows.go and termsize_windows.go are not part of the verified text",
+		"floating point (one use, the suggestion threshold of estimateCommand) is real arithmetic: exact for operands below 2^24; x/0 is an infinity, 0/0 a NaN for which every ordered comparison is false",
+		"iterator methods (eachGroup, eachCommand, eachOption, eachActiveGroup) called with a closure are loops over a ghost sequence that is a function of the receiver; what the sequence holds is assumed (axioms eg_nonempty, eag_elem, chain_*), the iterators themselves are not verified",
+		"range over a Go map runs over an arbitrary ghost key order (distinct keys, all of the domain); entries of the parser's tables under a present key are assumed non-nil (wf nonnil-elements)",
+		"package-level functions of strings, strconv, unicode, unicode/utf8, math, bytes without an assumed contract are uninterpreted pure functions of their arguments",
+		"package functions without a contract that are loop-free, non-recursive and take no address of a local are executed inline at their call sites; any other call of a function without contract is an engine limit",
+		"termination is proved for loops with a decreases clause only; recursion (convert, convertToString, groupByName, the man-page walk, scanStruct) is not shown to terminate",
+		"solver budgets are CPU seconds per obligation and back end; an obligation counts as discharged only on an unsat answer; cover obligations (vacuity guards) that no solver decides within 3 s are recorded as undecided-cover and not counted as refuted",
 	}
 }
 
